@@ -443,6 +443,15 @@ theorem adjtime_update_is_median (m : MedianTime) (id : String) (o : Int) (h : m
       ((Lemmas.l8_offs m o).filter (· > Lemmas.l8_med m o)).length ≤ (Lemmas.l8_offs m o).length / 2 :=
   Lemmas.l8_update m id o h h5 hodd
 
+/-- Consequently an accepted header is never more than 3 h 10 min ahead of the local clock, whatever the
+    peers reported. -/
+theorem header_time_bound (bits : Nat) (hash : List UInt8) (lim : Int) (np : Bool) (sec nsec now off : Int)
+    (hoff : off.natAbs < 4200)
+    (hok : checkBlockHeaderSanity bits hash lim np sec nsec (now + off) = .ok) : sec < now + 11400 := by
+  have h := ((header_sanity_ok_iff bits hash lim np sec nsec (now + off)).mp hok).2.2
+  unfold MAX_TIME_OFFSET at h
+  omega
+
 example : MedianTime.run MedianTime.new [("a", 7000), ("b", 7000), ("c", -1999), ("d", 7000), ("e", 7999)]
     = [0, 0, 0, 0, 7] := by decide
 
